@@ -195,6 +195,11 @@ class Ctx:
         ]
         self.checker_cmds.append(" ".join(cmd))
         rc, out = sh(cmd, timeout=timeout, cwd=self.build)
+        # a compile that was killed (time-out, signal, out of memory) or died without a Coq message
+        # says nothing about the property: retry it once, alone, with a longer limit
+        if rc != 0 and (rc in (124, 137, 139, 143) or rc < 0 or "Error" not in out):
+            self.notes.append(f"coqc {vfile.name}: rc={rc} without a Coq error message; retried once")
+            rc, out = sh(cmd, timeout=timeout * 2, cwd=self.build)
         return rc, out
 
     def coqc_many(self, vfiles, jobs=16, timeout=1800, logical="Gen"):
